@@ -201,6 +201,8 @@ const (
 	CStakeRegDeleg  CertKind = 11 // [11, cred, pool, coin]       deposit
 	CVoteRegDeleg   CertKind = 12 // [12, cred, drep, coin]       deposit
 	CStakeVoteRegDg CertKind = 13 // [13, cred, pool, drep, coin] deposit
+	CAuthHot        CertKind = 14 // [14, cold cred, hot cred]    no deposit
+	CResignCold     CertKind = 15 // [15, cold cred, null]        no deposit
 	CDRepReg        CertKind = 16 // [16, cred, coin, null]       deposit
 	CDRepUnreg      CertKind = 17 // [17, cred, coin]             refund
 	CDRepUpdate     CertKind = 18 // [18, cred, null]
@@ -246,6 +248,10 @@ func (c Cert) node(net uint8) *xcbor.Node {
 		return xcbor.A(xcbor.U(12), cred(c.Key), drepAbstain, xcbor.U(c.Amount))
 	case CStakeVoteRegDg:
 		return xcbor.A(xcbor.U(13), cred(c.Key), pool, drepAbstain, xcbor.U(c.Amount))
+	case CAuthHot:
+		return xcbor.A(xcbor.U(14), cred(c.Key), cred((c.Key+1)%nKeys))
+	case CResignCold:
+		return xcbor.A(xcbor.U(15), cred(c.Key), xcbor.Null())
 	case CDRepReg:
 		return xcbor.A(xcbor.U(16), cred(c.Key), xcbor.U(c.Amount), xcbor.Null())
 	case CDRepUnreg:
